@@ -57,6 +57,11 @@ technique_round3 = {
  "C19": "byte-comparison dominance rule for filter membership, per-cycle byte-set evaluation of the case-folding loop, return-provenance rule for rewriters, interprocedural provenance of parsed code points",
  "C20": "restore-between-parsers cycle rule, walk-not-bypassed reachability rule in openBlocks, spread/store provenance in the add function",
 }
+technique_round3["C01"] += ", attachment precondition propagated up the call chain from the paragraph transformers"
+technique_round3["C02"] += ", exact backward/forward window-guard rules (needed-offset analysis), IsRaw dominance rule for the decoding writer"
+technique_round3["C05"] += ", must-dispose path rule for openers taken off the pending list"
+technique_round3["C09"] += ", exact window guards outside util (needed-offset analysis), nil-line/blank-line successor agreement"
+technique_round3["C11"] += ", literal-prefix analysis of the WWW pattern with a dominating raw-line prefix test"
 for k, v in technique_round3.items():
     technique[k] = technique[k] + "; " + v
 
